@@ -2,6 +2,7 @@
 // Preconditions: push only elements that are in no heap, pop only on a non-empty heap, remove only
 // contained elements; the heap is drained before destruction (its destructor asserts emptiness).
 #include <vector>
+#include <cstring>
 #include <algorithm>
 #include <set>
 #include <frg/pairing_heap.hpp>
@@ -12,9 +13,11 @@ const char *verif_harness = "pheap_seq";
 using namespace verif;
 
 namespace {
+// user-provided constructor that does not mention the hook, objects created by default-initialisation in 0xA5-filled storage
 struct Elem {
-	int prio = 0, serial = 0;
+	int prio, serial;
 	frg::pairing_heap_hook<Elem> hook;
+	Elem() { prio = 0; serial = 0; }
 };
 // compare(a, b): a is ordered before b (top() is an element ordered before no other)
 struct Less { bool operator()(const Elem *a, const Elem *b) const { return a->prio < b->prio; } };
@@ -54,7 +57,8 @@ struct Run {
 void run(Ctx &c, bool scripted) {
 	auto &t = c.t;
 	Elem *pool = (Elem *)c.raw(sizeof(Elem) * POOL);
-	for(int i = 0; i < POOL; i++) { new (&pool[i]) Elem(); pool[i].serial = i; }
+	memset((void *)pool, 0xA5, sizeof(Elem) * POOL);
+	for(int i = 0; i < POOL; i++) { new (&pool[i]) Elem; pool[i].serial = i; }
 	Run r{c, c.make<Heap>(), {}, {}};
 	int next_free = 0; std::vector<Elem *> free_list;
 	bool nt = false;
